@@ -228,6 +228,53 @@ def rule_VA(run: Run) -> RuleResult:
     return res
 
 
+# ------------------------------------------------------------------ R-OF
+def rule_OF(run: Run) -> RuleResult:
+    """Options are handed on unchanged."""
+    res = RuleResult("R-OF")
+    nec = ("an operation evaluates its children under the options it was given: a class that substitutes another dictionary (resolved, "
+           "filtered, defaulted, enriched) evaluates them under options the caller never supplied — escaped braces are resolved twice, "
+           "a dangling template in an unrelated key fails the evaluation, keys() and evaluate() look at different dictionaries. "
+           "Only WithOptions (and what is built from it: Map, pre-set/default options of a dataset) changes the options, by mixing in "
+           "its own dictionary (C04, C08, C10)")
+    wo = run.repo.cls("WithOptions")
+    n = 0
+    for cls in run.node_classes():
+        for op in OPS:
+            owner, fn = cls.find_method(op)
+            if owner.name in ("Evaluatable", "Cacheable", "Validatable", "Explainable"):
+                continue
+            from . import astu as _astu
+            ps_ = _astu.param_names(fn)
+            if not ps_:
+                continue
+            optp = ps_[0]
+            bad = None
+            for p in run.paths(cls, op):
+                for e in p.events:
+                    if e.kind not in ("op", "unfold", "selfop") or e.via or e.opts is None:
+                        continue
+                    n += 1
+                    k = e.opts.key()
+                    if k == optp:
+                        continue
+                    if cls is wo and k in (f"call:confectioner.mix(Child(options),{optp})", f"call:confectioner.mix({optp},Child(options))"):
+                        continue
+                    if k == "dict{}":
+                        from .interp import Frame as _Fr
+                        if _Fr.atoms(p.conds[:e.ncond]).get(optp) is False or _Fr.atoms(p.conds[:e.ncond]).get(f"cmp:Is({optp},Const(None))") is True:
+                            continue        # `if not options: options = {}` — the empty dictionary stands for the absent one
+                    if bad is None:
+                        bad = (e.line, f"{e.op} of {e.target.key()[:50] if e.target is not None else '?'} receives {k[:90]} (line {e.line})")
+            res.add(f"{cls.qualname}.{op}:hands its options on unchanged", bad is None, owner.module.relpath, bad[0] if bad else fn.lineno,
+                    "every operation issued receives the options parameter itself" + (" or its mix with the pre-set dictionary" if cls is wo else "")
+                    if bad is None else bad[1], nec)
+    res.count("operations", n)
+    if n < 60:
+        raise AnalysisError(f"R-OF: only {n} operations with an options argument seen")
+    return res
+
+
 # ------------------------------------------------------------------ R-VO
 def rule_VO(run: Run) -> RuleResult:
     """The converse of R-VA / R-XA: an inspection method consults a child only where evaluate() may."""
